@@ -17,6 +17,7 @@ else."""
 import collections
 import concurrent.futures
 import glob
+import itertools
 import json
 import os
 import random
@@ -27,7 +28,8 @@ import common
 import sexp
 from props import c08gen
 
-KF_IDS = {}     # class name (c08gen) -> id in known_findings.jsonl; none at present
+# class name (c08gen) -> id in known_findings.jsonl
+KF_IDS = {"decl-tuple-dup-name": "C08-decl-tuple-duplicate-name"}
 
 
 # ----------------------------------------------------------------------------
@@ -58,7 +60,8 @@ def parse_impl(line):
             defs[name] = {"kind": d[1], "liftfail": body[1]}
         else:
             defs[name] = {"kind": d[1], "reports": parse_reports(body[2]), "raw": sexp.show(body[2]),
-                          "pass_panics": int(body[3]), "keys": py_keys_distinct(body[1])}
+                          "pass_panics": int(body[3]), "keys": py_keys_distinct(body[1]),
+                          "ckind": body[1][1], "subkeys": py_assign_subkeys(body[1])}
     return {"defs": defs, "parse_reports": int(x[2]), "mode": x[1]}
 
 
@@ -72,7 +75,8 @@ def parse_model(line):
         if d[3] == "liftfail":
             defs[name] = {"liftfail": True}
         else:
-            defs[name] = {"raw": sexp.show(d[3]), "keys": d[4] == "1", "ckeys": d[5] == "1"}
+            defs[name] = {"raw": sexp.show(d[3]), "keys": d[4] == "1", "ckeys": d[5] == "1",
+                          "subkeys": d[6] == "1" if len(d) > 6 else None}
     return defs
 
 
@@ -88,6 +92,58 @@ def py_keys_distinct(cfg):
                 deg = sexp.show(rhe[-1][2])
                 keys.append((sexp.show(s[1]), sexp.show(s[2]), acc, deg))
     return len(keys), len(set(keys))
+
+
+def py_assign_subkeys(cfg):
+    """The sub-key ((start, end), name, component path) of every `sig`
+    substitution of the dump: what a `<--` statement keeps of its source text
+    whatever SSA versions, generated suffixes, index expressions and degree
+    claims are (Spec.SigAssignSpec.subkey_eqb; distinct sub-keys imply
+    keys_distinct, theorem C08_subkeys_distinct_suffice)."""
+    out = []
+    for b in cfg[4][1:]:
+        for s in b[3]:
+            if s[0] == "subst" and s[3] == "sig":
+                rhe = s[4]
+                ports = tuple(sexp.unhex(a[1]) for a in rhe[2] if a[0] == "comp") if rhe[0] == "update" else ()
+                out.append(((int(s[1][1]), int(s[1][2])), sexp.unhex(s[2][1]), ports))
+    return out
+
+
+def source_subkeys(defn):
+    """The same sub-keys read off the generator's records of what it wrote
+    (name None: an input of an anonymous component, whose name is generated)."""
+    out = []
+    for a in defn["assigns"]:
+        name, acc = a["key"]
+        out.append((tuple(a["anchor"]), None if name.startswith("<") else name, tuple(re.findall(r"\.(\w+)", acc))))
+    return out
+
+
+def statements_match(defn, got):
+    """Every `<--` the generator wrote is exactly one `sig` substitution of the
+    SSA cfg with the statement's range as meta, its variable and its component
+    path, and the cfg has no other — the link from the source to the hypothesis
+    `keys_distinct`, independent of the analysis pass.  None or a description."""
+    have = collections.Counter(got["subkeys"])
+    for anchor, name, ports in sorted(source_subkeys(defn), key=lambda k: (k[1] is None, k[0], k[2])):
+        if name is not None:
+            hit = (anchor, name, ports) if have[(anchor, name, ports)] else None
+        else:
+            hit = next((k for k in sorted(have) if have[k] and k[0] == anchor and k[2] == ports), None)
+        if hit is None:
+            return "the `<--` written at %s (%s%s) is no `sig` substitution of the cfg" % (anchor, name, ports)
+        have[hit] -= 1
+    left = [k for k in sorted(have) if have[k]]
+    if left:
+        return "the cfg has `sig` substitution(s) %s that no `<--` of the source accounts for" % left[:3]
+    return None
+
+
+def source_keys_distinct(defn):
+    """No two recorded `<--` agree in (anchor, name, component path)."""
+    ks = [k for k in source_subkeys(defn)]
+    return len(ks) == len(set(ks))
 
 
 # ----------------------------------------------------------------------------
@@ -141,9 +197,18 @@ def known_class(defn, got, listed):
     as `known`, and the output is exactly what that defect produces."""
     for cls in sorted(c08gen.known_classes(defn)):
         if cls in KF_IDS and KF_IDS[cls] in listed:
-            if oracle_want(c08gen.expected(defn, known=(cls,)), got) is None:
-                return KF_IDS[cls]
+            groups = sorted(c08gen.dup_groups(defn).items())
+            # every way the records of a group may collapse: 1 .. size findings per group
+            for counts in itertools.product(*[range(1, n + 1) for _, n in groups]):
+                keep = {g: c for (g, _), c in zip(groups, counts)}
+                if oracle_want(c08gen.expected(defn, known=(cls,), keep=keep), got) is None:
+                    return KF_IDS[cls]
     return None
+
+
+def hypothesis_exempt(defn, listed):
+    """`keys_distinct` is known to fail on the cfgs of exactly the listed known-finding classes."""
+    return any(cls in KF_IDS and KF_IDS[cls] in listed for cls in c08gen.known_classes(defn))
 
 
 # ----------------------------------------------------------------------------
@@ -209,6 +274,60 @@ def evaluate(cases, harness, model):
     return [parse_impl(l) for l in impl_lines], [parse_model(l) for l in model_lines]
 
 
+SELFTEST_SRC = """pragma circom 2.1.4;
+template S(n) {
+    signal input x;
+    signal output y;
+    signal output a[3];
+    if (n == 0) {
+        y <-- x \\ 2;
+    } else {
+        y <-- x \\ 2;
+    }
+    for (var i = 0; i < 3; i++) {
+        a[i] <-- x >> i;
+    }
+}
+"""
+
+
+def hypothesis_selftest(harness, model):
+    """Do the hypothesis checks really evaluate the hypothesis?  The dump of a
+    real cfg is edited so that one `<--` statement occurs twice (equal meta,
+    signal, access, degree): the model must answer keys_distinct = false,
+    sub-keys = false, and find one report less than there are statements; the
+    Python re-computation must count a duplicate; the untouched dump must pass
+    all of them.  Returns None or what went wrong."""
+    line = common.run_lines(harness, [], [SELFTEST_SRC.encode().hex()])[0]
+    x = sexp.parse(line)
+    if x[0] != "file" or len(x[3]) != 1 or x[3][0][3][0] != "ok":
+        return "self-test source not analysed: " + line[:200]
+    clean = parse_impl(line)["defs"]["S"]
+    mclean = parse_model(common.run_lines(model, [], [line])[0]).get("S", {})
+    n, nd = clean["keys"]
+    if (n, nd) != (3, 3) or mclean.get("keys") is not True or mclean.get("subkeys") is not True \
+            or len(clean["reports"]) != 3 or mclean.get("raw") != clean["raw"]:
+        return "untouched self-test cfg: python %s model %s reports %d" % ((n, nd), mclean, len(clean["reports"]))
+    done = False
+    for b in x[3][0][3][1][4][1:]:
+        for i, st in enumerate(b[3]):
+            if st[0] == "subst" and st[3] == "sig" and not done:
+                b[3].insert(i, st)
+                done = True
+    if not done:
+        return "no `sig` substitution in the self-test dump"
+    bad = sexp.show(x)
+    dirty = parse_impl(bad)["defs"]["S"]
+    mdirty = parse_model(common.run_lines(model, [], [bad])[0]).get("S", {})
+    n, nd = dirty["keys"]
+    nrep = (mdirty.get("raw") or "").count("(r ")
+    sk = dirty["subkeys"]
+    if (n, nd) != (4, 3) or mdirty.get("keys") is not False or mdirty.get("subkeys") is not False \
+            or len(sk) == len(set(sk)) or nrep != 3:
+        return "cfg with a duplicated `<--` statement: python %s model %s (model reports: %d)" % ((n, nd), mdirty, nrep)
+    return None
+
+
 def run(ctx, proofs):
     harness = common.build_harness("sigassign")
     model = common.build_model("sigassign")
@@ -233,6 +352,7 @@ def run(ctx, proofs):
     known_hits = collections.Counter()
     stats = collections.Counter()
     forms = collections.Counter()
+    shapes = collections.Counter()
     nontrivial = set()
     e2e_pool = []
     sample = None
@@ -269,9 +389,41 @@ def run(ctx, proofs):
                                           "impl": got["raw"], "model": mgot.get("raw")})
                 n, nd = got["keys"]
                 stats["assign_statements_in_cfgs"] += n
-                if not mgot.get("keys", False) or n != nd:
+                stats["hypothesis_evaluations"] += 1
+                exempt = hypothesis_exempt(defn, listed)
+                if mgot.get("keys") is not (n == nd):
+                    hyp_broken.append({"input": c["src"], "origin": c["origin"], "definition": name,
+                                       "hypothesis": "keys_distinct (model and Python re-computation differ)",
+                                       "model": mgot.get("keys"), "python": [n, nd]})
+                elif n != nd and exempt:
+                    stats["keys_not_distinct_in_known_class"] += 1
+                elif n != nd:
                     hyp_broken.append({"input": c["src"], "origin": c["origin"], "definition": name,
                                        "hypothesis": "keys_distinct", "model": mgot.get("keys"), "python": [n, nd]})
+                # the source side of the hypothesis: the written `<--` statements are the cfg's, and are distinct
+                if defn["kind"] != "function" and "assigns" in defn:
+                    sk = got["subkeys"]
+                    if mgot.get("subkeys") is not None and mgot["subkeys"] is not (len(sk) == len(set(sk))):
+                        hyp_broken.append({"input": c["src"], "origin": c["origin"], "definition": name,
+                                           "hypothesis": "subkeys_distinct (model and Python re-computation differ)"})
+                    why_s = statements_match(defn, got)
+                    if why_s:
+                        hyp_broken.append({"input": c["src"], "origin": c["origin"], "definition": name,
+                                           "hypothesis": "source statements = cfg statements: " + why_s})
+                    elif not source_keys_distinct(defn) and not exempt:
+                        hyp_broken.append({"input": c["src"], "origin": c["origin"], "definition": name,
+                                           "hypothesis": "two `<--` of the source agree in range, name and component path"})
+                    else:
+                        stats["source_statements_matched"] += len(sk)
+                # the definition type the pass branches on, against the header the generator wrote
+                if "header" in defn or defn["kind"] == "function":
+                    wantk = "function" if defn["kind"] == "function" else defn["kind"]
+                    stats["definition_types_checked"] += 1
+                    if got["ckind"] != wantk:
+                        failing.append({"input": c["src"], "origin": c["origin"], "definition": name,
+                                        "why": "definition written as `%s` is lifted as a %s cfg (the early exit of the pass "
+                                               "depends on it)" % (defn.get("header", "function").strip(), got["ckind"]),
+                                        "impl": got["ckind"], "spec": wantk})
                 if not mgot.get("ckeys", False):
                     hyp_broken.append({"input": c["src"], "origin": c["origin"], "definition": name,
                                        "hypothesis": "constraint_keys_distinct"})
@@ -287,6 +439,12 @@ def run(ctx, proofs):
                 stats["functions_with_arrow"] += 1
             for a in defn["assigns"]:
                 forms[a["form"]] += 1
+                if a.get("dup"):
+                    shapes["same target in several branches: " + a["dup"]] += 1
+            if "header" in defn:
+                shapes["header `%s`" % defn["header"].strip()] += 1
+                if defn["kind"] == "template" and defn.get("parallel"):
+                    stats["findings_demanded_in_parallel_templates"] += len(want)
             if why:
                 kf = known_class(defn, got, listed)
                 if kf:
@@ -304,6 +462,22 @@ def run(ctx, proofs):
                 for a in defn["assigns"]:
                     for code, nsec in by_anchor.get(tuple(a["anchor"]), []):
                         nontrivial.add((a["form"], "[" in a["key"][1], "." in a["key"][1], "#" in a["key"][1], code, nsec))
+
+    # the checks of the hypotheses are themselves checked on every run
+    selftest = hypothesis_selftest(harness, model)
+    if selftest:
+        hyp_broken.append({"input": SELFTEST_SRC, "origin": "self-test", "definition": "S",
+                           "hypothesis": "the evaluation of keys_distinct is broken: " + selftest})
+    # the deliberate shapes must have been generated (not left to luck)
+    required = ["header `template`", "header `template parallel`", "header `template custom`",
+                "header `template custom parallel`", "same target in several branches: scalar",
+                "same target in several branches: elem-loop", "same target in several branches: port"]
+    missing = [k for k in required if not shapes[k]]
+    if not stats["findings_demanded_in_parallel_templates"]:
+        missing.append("`<--` inside a parallel template")
+    if missing:
+        hyp_broken.append({"input": None, "origin": "generator", "definition": "-",
+                           "hypothesis": "generator c08gen no longer writes the shapes %s" % missing})
 
     # end to end through the binary
     ne2e = 96 if quick else 600
@@ -345,7 +519,7 @@ def run(ctx, proofs):
     if not failing:
         if hyp_broken:
             h = hyp_broken[0]
-            ctx.violation("hypothesis %s of the C08 theorems does not hold on a real SSA cfg (%d cases, first: %s %s)"
+            ctx.violation("a hypothesis of the C08 theorems (or its evaluation) fails: %s (%d cases, first: %s %s)"
                           % (h["hypothesis"], len(hyp_broken), h["origin"], h["definition"]),
                           {"broken": "hypothesis " + h["hypothesis"], "first": h, "count": len(hyp_broken)}, no_input=True)
         if disagreements:
@@ -381,6 +555,13 @@ def run(ctx, proofs):
         "findings": {"CS0005": stats["CS0005"], "CS0013": stats["CS0013"],
                      "CS0005_with_secondaries": stats["CS0005_with_secondaries"]},
         "forms_of_assignment": dict(forms),
+        "deliberate_shapes": dict(shapes),
+        "findings_demanded_in_parallel_templates": stats["findings_demanded_in_parallel_templates"],
+        "definition_types_checked_against_header": stats["definition_types_checked"],
+        "hypothesis_evaluations": stats["hypothesis_evaluations"],
+        "source_statements_matched_with_cfg_statements": stats["source_statements_matched"],
+        "keys_not_distinct_in_known_class": stats["keys_not_distinct_in_known_class"],
+        "hypothesis_selftest": selftest or "passed: a duplicated `<--` statement in a real dump is flagged by model and Python",
         "pass_panics_other_passes": stats["pass_panics"],
         "e2e_cli_files": e2e_checked,
         "disagreements_model_vs_impl": len(disagreements),
